@@ -8,6 +8,7 @@
 From Coq Require Import QArith ZArith List Bool.
 Import ListNotations.
 Require Import Plinio.Base.Qx Plinio.Model.Sampler Plinio.Proofs.Sampler.
+Require Import Plinio.Gen.SamplerGen Plinio.Proofs.SamplerGen.
 Open Scope Q_scope.
 
 Definition Gpos (g : Q -> Q) : Prop := forall x, 0 < g x.
@@ -133,6 +134,135 @@ Proof.
   - repeat constructor; try discriminate; cbv; discriminate.
 Qed.
 
+(* ------------------------------------------------------------------------------------------------------------------
+   The same sentences about the code AS IT IS NOW.  Gen/SamplerGen.v is rewritten on every run by
+   translator/sampler2coq.py from the source of STEArgmax.forward, MPSBaseQtz.sample_alpha_sm / _gs / _none,
+   update_softmax_options, __init__, SuperNetCombiner.sample_alpha_sm / _gs, __init__ and SuperNet.update_softmax_options
+   (statement by statement; `gobj` = the model's sampler + the NAME of the function bound to self.sample_alpha).
+   Proofs/SamplerGen.v proves the generated functions equal to the hand-written model for the configuration
+   mkCfg true false of the current tree (None keeps an option; the combiner's soft-max sampler ignores self.training);
+   a change of the samplers changes the generated text and these theorems stop checking unless the new code computes
+   the same functions.  Trusted: F.gumbel_softmax = the model's gumbel_softmax of an explicit noise (the translator
+   cannot see the noise torch draws), F.softmax(x, dim=0) = exp(x_i)/sum_j exp(x_j) per column, torch.argmax = first
+   maximum, `self.sample_alpha()` = call of the method whose name is bound (see the translator's docstring). *)
+
+(* STEArgmax.forward is the one-hot at the arg-max of every column *)
+Theorem C10_generated_ste_is_model : forall x, ste_argmax_gen x = map ste x.
+Proof. exact ste_argmax_gen_eq. Qed.
+
+(* the three samplers of an MPS selector and the two of a SuperNet combiner leave in theta_alpha what the model's
+   sample_sm / sample_gs compute (and touch nothing else; b = whatever function is bound) *)
+Theorem C10_generated_mps_sample_sm_is_model : forall g c s b,
+  mps_sample_alpha_sm_gen g (mkO s b) = mkO (set_theta s (sample_sm g c KMps s)) b.
+Proof. exact mps_sample_sm_gen_eq. Qed.
+Theorem C10_generated_mps_sample_gs_is_model : forall g c s b noise,
+  mps_sample_alpha_gs_gen g (mkO s b) noise = mkO (set_theta s (sample_gs g c KMps s noise)) b.
+Proof. exact mps_sample_gs_gen_eq. Qed.
+Theorem C10_generated_mps_sample_none_is_model : forall s b,
+  mps_sample_alpha_none_gen (mkO s b) = mkO (set_theta s (theta s)) b.
+Proof. exact mps_sample_none_gen_eq. Qed.
+Theorem C10_generated_comb_sample_sm_is_model : forall g keep s b,
+  comb_sample_alpha_sm_gen g (mkO s b) = mkO (set_theta s (sample_sm g (mkCfg keep false) KComb s)) b.
+Proof. exact comb_sample_sm_gen_eq. Qed.
+Theorem C10_generated_comb_sample_gs_is_model : forall g keep s b noise,
+  comb_sample_alpha_gs_gen g (mkO s b) noise = mkO (set_theta s (sample_gs g (mkCfg keep false) KComb s noise)) b.
+Proof. exact comb_sample_gs_gen_eq. Qed.
+
+(* `self.sample_alpha()` at the head of forward: the bound function is the one the model's flags select
+   (embed s = the object whose options are s and whose bound function is sampler_name s) *)
+Theorem C10_generated_forward_is_model : forall g k s noise, (k = KComb -> disabled s = false) ->
+  forward_gen g k (embed s) noise = embed (set_theta s (sample g (mkCfg true false) k s noise)).
+Proof. exact forward_gen_eq. Qed.
+
+(* MPSBaseQtz.update_softmax_options is the SUpdate step with keep_opts = true, and it binds the function the model
+   derives from the flags, whatever was bound before; SuperNet.update_softmax_options on a combiner likewise *)
+Theorem C10_generated_mps_update_is_model : forall g c s b t h gm d,
+  Some (mps_update_softmax_options_gen (mkO s b) t h gm d) =
+  option_map embed (step g (mkCfg true c) KMps s (SUpdate t h gm d)).
+Proof. exact mps_update_gen_eq. Qed.
+Theorem C10_generated_comb_update_is_model : forall g c s t h,
+  Some (comb_update_softmax_options_gen (embed s) t h) = option_map embed (step g c KComb s (SUpdate t h None None)).
+Proof. exact comb_update_gen_eq. Qed.
+
+(* the constructors' option wiring *)
+Theorem C10_generated_mps_init_is_model : forall s0 b0 T h gm d,
+  mps_init_gen (mkO s0 b0) T h gm d = embed (mkS h gm d T (training s0) (alpha s0) (theta s0)).
+Proof. exact mps_init_gen_eq. Qed.
+Theorem C10_generated_comb_init_is_model : forall s0 b0 gm h,
+  let o := comb_init_gen (mkO s0 b0) gm h in
+  bound o = sampler_name (mkS h gm false 1 (training s0) (alpha s0) (alpha s0)) /\
+  hard (core o) = h /\ temp (core o) = 1 /\ alpha (core o) = alpha s0 /\ theta (core o) = alpha s0 /\
+  training (core o) = training s0.
+Proof. exact comb_init_gen_eq. Qed.
+
+(* every op sequence: update_softmax_options / forward executed by the generated functions (train / eval / optimizer step
+   replace one field) = the model's run *)
+Theorem C10_generated_run_is_model : forall g k ops s, (k = KComb -> disabled s = false) ->
+  gen_run g k (embed s) ops = option_map embed (run g (mkCfg true false) k s ops).
+Proof. exact gen_run_eq. Qed.
+
+(* --- the sentences of the property, on the generated code.  One forward pass with sampling enabled, outside the open
+   finding (an MPS selector, or a combiner that is training or hard): every column of theta_alpha is a probability
+   vector; eval mode or hard non-Gumbel training: the one-hot at argmax(alpha); hard: a one-hot *)
+Theorem C10_generated_forward_post : forall g, Gpos g -> Gincr g -> forall k s noise,
+  (k = KMps \/ training s = true \/ hard s = true) -> wf s -> disabled s = false ->
+  let th := theta (core (forward_gen g k (embed s) noise)) in
+  Forall (fun v => Forall (fun x => 0 <= x) v /\ qsum v == 1) th /\
+  ((training s = false \/ (hard s = true /\ gumbel s = false)) ->
+     th = map (fun a => onehot (length a) (argmax a)) (alpha s)) /\
+  (hard s = true -> Forall is_onehot th).
+Proof. exact gen_forward_post_ok. Qed.
+
+(* ... after EVERY sequence of option updates, mode switches, optimizer steps and forward passes *)
+Theorem C10_generated_invariant_after_run : forall g, Gpos g -> Gincr g -> forall k ops s o1 noise o2,
+  wf s -> Forall wf_op ops -> (k = KComb -> disabled s = false) ->
+  gen_run g k (embed s) ops = Some o1 -> gen_step g k o1 (SForward noise) = Some o2 ->
+  disabled (core o1) = false ->
+  (k = KMps \/ training (core o1) = true \/ hard (core o1) = true) ->
+  Forall (fun v => Forall (fun x => 0 <= x) v /\ qsum v == 1) (theta (core o2)) /\
+  ((training (core o1) = false \/ (hard (core o1) = true /\ gumbel (core o1) = false)) ->
+     theta (core o2) = map (fun a => onehot (length a) (argmax a)) (alpha (core o1))) /\
+  (hard (core o1) = true -> Forall is_onehot (theta (core o2))).
+Proof. exact gen_invariant_after_run. Qed.
+
+(* what summary()/export() choose = arg-max of the raw coefficients = where the largest evaluated coefficient is when no
+   noise is involved; in eval mode / hard non-Gumbel training the evaluated coefficients are exactly its one-hot *)
+Theorem C10_generated_selected_is_argmax : forall g, Gpos g -> Gincr g -> forall k s noise, wf s ->
+  disabled s = false -> (gumbel s = false \/ training s = false) ->
+  map argmax (theta (core (forward_gen g k (embed s) noise))) = selected (alpha s).
+Proof. exact gen_selected_is_argmax. Qed.
+Theorem C10_generated_selected_onehot : forall g, Gpos g -> Gincr g -> forall k s noise,
+  (k = KMps \/ training s = true \/ hard s = true) -> wf s -> disabled s = false ->
+  (training s = false \/ (hard s = true /\ gumbel s = false)) ->
+  theta (core (forward_gen g k (embed s) noise)) = map (fun col => onehot (length col) (argmax col)) (alpha s) /\
+  selected (alpha s) = map argmax (alpha s).
+Proof. exact gen_selected_onehot. Qed.
+
+(* --- the open findings are behaviours of the generated code too (KNOWN_FINDINGS.json, left open on purpose) *)
+Theorem C10_generated_combiner_eval_soft_refuted : forall g, Gpos g -> exists s noise,
+  wf s /\ disabled s = false /\ training s = false /\ hard s = false /\
+  ~ post_ok s (theta (core (comb_forward_gen g (embed s) noise))).
+Proof. exact gen_comb_eval_soft_refuted. Qed.
+Theorem C10_generated_disabled_eval_stale_refuted : forall g, Gpos g -> exists s ops o1 noise o2,
+  wf s /\ Forall wf_op ops /\ gen_run g KMps (embed s) ops = Some o1 /\ gen_step g KMps o1 (SForward noise) = Some o2 /\
+  training (core o1) = false /\ disabled (core o1) = true /\ ~ post_ok (core o1) (theta (core o2)).
+Proof. exact gen_disabled_eval_stale_refuted. Qed.
+(* a selector constructed with disable_sampling=True keeps whatever theta_alpha held (torch.ones: not a probability
+   vector) through every forward pass *)
+Theorem C10_generated_disabled_ctor_keeps_initial_theta : forall g s0 b0 T h gm noise,
+  theta (core (mps_forward_gen g (mps_init_gen (mkO s0 b0) T h gm true) noise)) = theta s0.
+Proof. exact gen_disabled_ctor_keeps_initial_theta. Qed.
+
+(* non-vacuity: the generated functions run on the 6-op sequence of C10_example_sequence *)
+Example C10_generated_example_sequence :
+  let s0 := mkS false false false 1 true [[3#10; -(1#2); 1]; [2; 1; 0]] [[1; 1; 1]; [1; 1; 1]] in
+  let ops := [SUpdate (Some (1#2)) (Some true) (Some true) None; SForward [[0; 5; 0]; []];
+              SOptStep [[0; 1; 2]; [5; 4; 3]]; SUpdate None (Some false) None None; SEval; SForward []] in
+  option_map (fun o => (theta (core o), bound o)) (gen_run gsur KMps (embed s0) ops) = Some ([[0; 0; 1]; [1; 0; 0]], 1%Z) /\
+  option_map (fun o => theta (core o)) (gen_run gsur KMps (embed s0) (firstn 2 ops)) = Some [[0; 1; 0]; [1; 0; 0]].
+Proof. cbv zeta. split; vm_compute; reflexivity. Qed.
+
+
 Print Assumptions C10_softmax_prob.
 Print Assumptions C10_argmax_softmax.
 Print Assumptions C10_ste_onehot_at_argmax.
@@ -148,3 +278,22 @@ Print Assumptions C10_selected_onehot.
 Print Assumptions C10_onehot_mix.
 Print Assumptions C10_combiner_eval_soft_refuted.
 Print Assumptions C10_disabled_eval_stale_refuted.
+Print Assumptions C10_generated_ste_is_model.
+Print Assumptions C10_generated_mps_sample_sm_is_model.
+Print Assumptions C10_generated_mps_sample_gs_is_model.
+Print Assumptions C10_generated_mps_sample_none_is_model.
+Print Assumptions C10_generated_comb_sample_sm_is_model.
+Print Assumptions C10_generated_comb_sample_gs_is_model.
+Print Assumptions C10_generated_forward_is_model.
+Print Assumptions C10_generated_mps_update_is_model.
+Print Assumptions C10_generated_comb_update_is_model.
+Print Assumptions C10_generated_mps_init_is_model.
+Print Assumptions C10_generated_comb_init_is_model.
+Print Assumptions C10_generated_run_is_model.
+Print Assumptions C10_generated_forward_post.
+Print Assumptions C10_generated_invariant_after_run.
+Print Assumptions C10_generated_selected_is_argmax.
+Print Assumptions C10_generated_selected_onehot.
+Print Assumptions C10_generated_combiner_eval_soft_refuted.
+Print Assumptions C10_generated_disabled_eval_stale_refuted.
+Print Assumptions C10_generated_disabled_ctor_keeps_initial_theta.
